@@ -112,7 +112,7 @@ func init() {
 			Check: []scanCfg{cm, tg}, Export: []scanCfg{cm, tg}, MaxAPI: 8000, MaxCLIFromTLC: 100,
 			NRandom: 40, MaxTraces: 60,
 			Gen:   genParams{NBlob: 3, NTree: 4, NCommit: 16, NTag: 8, MaxEnt: 2, MaxBlob: 20, Merges: true, RootKinds: "refs"},
-			Fails: scanFails["C03"], Extra: append(tagChainCases("c03"), octopusCases("c03")...),
+			Fails: scanFails["C03"], Extra: append(append(tagChainCases("c03"), octopusCases("c03")...), multiRootCases("c03")...),
 			Rule: "TLC families Commits (all DAGs on <=4 commits x all parents-first orders) and Tags (all forests on <=3 tags x all orders), replayed into sizes.Graph; every DAG also materialised with permuted timestamps and scanned by the binary; distinct = distinct (graph, order) / (graph, dates)",
 		}
 		if !quick(c) {
